@@ -1411,6 +1411,20 @@ class SyncObj(object):
         else:
             data = None
         cluster = self.__otherNodes | {self.__selfNode}
+        if self.__conf.dynamicMembershipChange:
+            # The snapshot describes the applied position. Membership entries above it took effect when they
+            # were appended and may still be truncated: undo them (newest first) for the stored member set.
+            for entry in reversed(self.__getEntries(self.__raftLastApplied + 1)):
+                request = self.__parseChangeClusterRequest(entry[0])
+                if request is None:
+                    continue
+                node = request[2] if len(request) >= 3 else request[1]
+                if not isinstance(node, Node):
+                    node = self.__nodeClass(node)
+                if request[0] == 'add':
+                    cluster.discard(node)
+                elif request[0] == 'rem':
+                    cluster.add(node)
         self.__serializer.serialize((data, lastAppliedEntries[1], lastAppliedEntries[0], cluster), lastAppliedEntries[0][1])
 
     def __loadDumpFile(self, clearJournal):
